@@ -24,7 +24,7 @@ func AlwaysReturnsError(p *core.Program, fn *types.Func) bool {
 	if fn == nil || fn.Pkg() == nil {
 		return false
 	}
-	switch fn.Pkg().Path() + "." + fn.Name() {
+	switch fn.Pkg().Path() + "." + core.RefName(fn) {
 	case "errors.New", "fmt.Errorf", "k8s.io/apimachinery/pkg/util/errors.NewAggregate":
 		return true
 	}
@@ -147,7 +147,7 @@ func IsErrorReturn(p *core.Program, w *facts.Walker, fn *types.Func, ret *ast.Re
 	if len(ret.Results) == 0 {
 		// named results: the error result variable
 		v := res.At(res.Len() - 1)
-		if v.Name() == "" {
+		if core.RefName(v) == "" {
 			return false
 		}
 		return facts.Entails(f, facts.Not{X: facts.Atom("nil:" + w.PathOfVar(v))})
@@ -332,7 +332,7 @@ func StableResult(fd *core.FuncDecl, e ast.Expr) string {
 			if len(defs) == 1 {
 				if c, isC := ast.Unparen(defs[0]).(*ast.CallExpr); isC {
 					if fn := core.Callee(info, c); fn != nil {
-						return "‹result of " + fn.Name() + "›"
+						return "‹result of " + core.RefName(fn) + "›"
 					}
 				}
 			}
